@@ -154,8 +154,7 @@ class LifecycleRun:
                 self.final["block_equal"] = s.spa.struct.status_block == s.peer.sim.structure.status_block
             # context exit
             self.log.append({"k": "exit"})
-            s.run(s.man.__aexit__(None, None, None))
-            s.entered = False
+            self.exit_returned = s.exit_context()
             self.exited = True
             s.advance(0.5)
             self.after_exit = {
